@@ -39,27 +39,32 @@ Qed.
 
 (* ---- generic: a round-tripping value, no accepted prefix, no allocation ------------------------- *)
 
-Lemma monitor_eq_value {A} (eqb : A -> A -> bool) in_bounds hdr base pb data pl (x : A) res tr :
+Definition res_within {A} (res_ok : A -> bool) (res : option A) : bool :=
+  match res with Some y => res_ok y | None => true end.
+
+Lemma monitor_eq_value {A} (eqb : A -> A -> bool) in_bounds res_ok hdr base pb data pl (x : A) res tr :
   option_eqb eqb res (Some x) = true ->
+  res_within res_ok res = true ->
   existsb (prefix_must_fail hdr) tr = false ->
-  monitor_eq eqb in_bounds hdr base pb (C27Case 0 data true pl false tr 0 0 0) (Some x) res = 0.
+  monitor_eq eqb in_bounds res_ok hdr base pb (C27Case 0 data true pl false tr 0 0 0) (Some x) res = 0.
 Proof.
-  intros R T. unfold monitor_eq. rewrite alloc_under_zero. cbn [negb c_mode c_enc_ok c_trunc_ok].
+  intros R K T. unfold monitor_eq. rewrite alloc_under_zero. unfold res_within in K. rewrite K.
+  cbn [negb c_mode c_enc_ok c_trunc_ok].
   rewrite R, T. rewrite andb_false_r. reflexivity.
 Qed.
 
-Lemma monitor_eq_prefix {A} (eqb : A -> A -> bool) in_bounds base pb data pl (res : option A) :
+Lemma monitor_eq_prefix {A} (eqb : A -> A -> bool) in_bounds res_ok base pb data pl (res : option A) :
   res = None ->
-  monitor_eq eqb in_bounds None base pb (C27Case 1 data true pl false [] 0 0 0) None res = 0.
+  monitor_eq eqb in_bounds res_ok None base pb (C27Case 1 data true pl false [] 0 0 0) None res = 0.
 Proof.
   intros ->. unfold monitor_eq. rewrite alloc_under_zero. reflexivity.
 Qed.
 
-Lemma monitor_eq_bytes {A} (eqb : A -> A -> bool) in_bounds hdr base pb mode data pl (res : option A) :
-  2 <= mode ->
-  monitor_eq eqb in_bounds hdr base pb (C27Case mode data true pl false [] 0 0 0) None res = 0.
+Lemma monitor_eq_bytes {A} (eqb : A -> A -> bool) in_bounds res_ok hdr base pb mode data pl (res : option A) :
+  2 <= mode -> res_within res_ok res = true ->
+  monitor_eq eqb in_bounds res_ok hdr base pb (C27Case mode data true pl false [] 0 0 0) None res = 0.
 Proof.
-  intro M. unfold monitor_eq. rewrite alloc_under_zero. cbn [negb c_mode].
+  intros M K. unfold monitor_eq. rewrite alloc_under_zero. unfold res_within in K. rewrite K. cbn [negb c_mode].
   destruct mode as [|[m|m|]]; try lia; reflexivity.
 Qed.
 
@@ -76,6 +81,7 @@ Proof.
   intros b e W E. cbn [C27_monitor c_payload]. unfold eff_res. cbn [c_res_same]. unfold monitor_codec.
   apply monitor_eq_value.
   - rewrite (result_roundtrip b e W E). apply res_eqb_refl. exact W.
+  - rewrite (result_roundtrip b e W E). exact W.
   - rewrite model_trunc_nil; [reflexivity|]. intros p s Hp Hs. eapply result_truncation_rejected; eassumption.
 Qed.
 
@@ -88,11 +94,13 @@ Proof.
 Qed.
 
 Theorem result_bytes_satisfy_monitor : forall mode data,
-  2 <= mode ->
+  2 <= mode -> all_bytes data = true ->
   C27_monitor (C27Case mode data true (PReplResult None (DecodeExchangeBatchResult data)) false [] 0 0 0) = 0.
 Proof.
-  intros mode data M. cbn [C27_monitor c_payload]. unfold eff_res. cbn [c_res_same]. unfold monitor_codec.
-  apply monitor_eq_bytes. exact M.
+  intros mode data M B. cbn [C27_monitor c_payload]. unfold eff_res. cbn [c_res_same]. unfold monitor_codec.
+  apply monitor_eq_bytes; [exact M|]. unfold res_within.
+  destruct (DecodeExchangeBatchResult data) as [y|] eqn:D; [|reflexivity].
+  eapply result_decoded_in_bounds; eassumption.
 Qed.
 
 (* ---- replication: request frames ------------------------------------------------------------------------ *)
@@ -105,6 +113,7 @@ Proof.
   intros bits b e W E. cbn [C27_monitor c_payload]. unfold eff_res. cbn [c_res_same]. unfold monitor_codec.
   apply monitor_eq_value.
   - rewrite (batch_roundtrip _ b e W E). apply res_eqb_refl. exact W.
+  - rewrite (batch_roundtrip _ b e W E). exact W.
   - rewrite model_trunc_nil; [reflexivity|]. intros p s Hp Hs. eapply batch_truncation_rejected; eassumption.
 Qed.
 
@@ -134,6 +143,7 @@ Proof.
   apply monitor_eq_value.
   - destruct (forward_roundtrip r W) as (e' & E' & D). rewrite E in E'. injection E' as <-.
     rewrite D. cbn. apply forward_eqb_refl.
+  - unfold res_within. destruct (DecodeForwardRequest e); reflexivity.
   - rewrite model_trunc_nil; [reflexivity|]. intros p s Hp Hs. eapply forward_truncation_rejected; eassumption.
 Qed.
 
